@@ -951,10 +951,16 @@ def _get_lambda_in_stream(
     colon = getattr(t_stream, "last_token", None)
     if colon is not None and colon.string == ":":
         accumulated_tokens.append(colon)
-    for t in t_stream.tokens_till({tokenize.OP: [",", ")"]}):
+    # ... or the end of the statement (`add_one = lambda x: x + 1`)
+    for t in t_stream.tokens_till(
+        {tokenize.OP: [",", ")"], tokenize.NEWLINE: ["\n", "\r\n", ""]}
+    ):
         accumulated_tokens.append(t)
         if t.type == tokenize.NEWLINE or t.string == "\n":
             saw_new_line = True
+    end = getattr(t_stream, "last_token", None)
+    if end is not None and end.type == tokenize.NEWLINE:
+        saw_new_line = True
 
     function_source = "(" + tokenize.untokenize(accumulated_tokens).lstrip() + ")"
     a_module = ast.parse(function_source)
